@@ -134,6 +134,43 @@ def check_pure_vs_model(cases, results, name):
     return dis, n
 
 
+def raise_behind_always(rng, n):
+    """an event RAISED while a state is entered whose eventless transition is enabled: every engine settles the eventless
+    transition first and handles the raised event in the state it leads to (the event is handled differently, or only, there).
+    No bound is anywhere near (maxIterations 50), so none of the recorded engine differences applies."""
+    import itertools
+    from harness.am import AM, Node, Trans
+    cases = []
+    for i in range(n):
+        tid = itertools.count(1)
+        mark = itertools.count(1)
+        nodes = [Node(0, "m", None, "compound"), Node(1, "a", 0, "atomic"), Node(2, "b", 0, "atomic"), Node(3, "c", 0, "atomic"),
+                 Node(4, "x", 0, "atomic"), Node(5, "y", 0, "atomic")]
+        nodes[0].children = [1, 2, 3, 4, 5]
+        nodes[0].initial = 1
+        am = AM(nodes, max_iter=50)
+        where = rng.choice(["transition", "entry", "exit"])
+        raise_act = ("raise", "E", rng.randint(1, 9))
+        go_acts = [("mark", next(mark))] + ([raise_act] if where == "transition" else [])
+        nodes[1].on.append(("GO", [Trans(next(tid), 1, "GO", 2, actions=go_acts)]))
+        if where == "entry":
+            nodes[2].entry = [raise_act]
+        if where == "exit":
+            nodes[1].exit = [raise_act]
+        guard = rng.choice([None, None, ("ge", 0, 1)])
+        nodes[2].on.append(("", [Trans(next(tid), 2, "", 3, guard=guard, actions=[("mark", next(mark))])]))
+        if rng.random() < 0.7:
+            nodes[2].on.append(("E", [Trans(next(tid), 2, "E", 4, actions=[("mark", next(mark))])]))
+        nodes[3].on.append(("E", [Trans(next(tid), 3, "E", 5, actions=[("mark", next(mark))])]))
+        for s_ in (2, 3, 4, 5):
+            nodes[s_].entry = nodes[s_].entry + [("mark", next(mark))]
+        for s_ in (4, 5):
+            nodes[s_].on.append(("BACK", [Trans(next(tid), s_, "BACK", 1)]))
+        events = [("GO", "plain", 1), ("BACK", "plain", 2), ("GO", "plain", 3)]
+        cases.append((am, {0: rng.randint(0, 1)}, events))
+    return cases
+
+
 def run(rep, ctx):
     rng = random.Random(ctx["seed"] * 7919 + 5)
     big = ctx["tier"] == "thorough"
@@ -146,11 +183,15 @@ def run(rep, ctx):
     # three-way comparison of the implementations with each other, and K-pure
     groups = [("plain", dict(raises=False, history=False), 500 if big else 120),
               ("full", dict(), 500 if big else 120)]
+    groups.append(("raise_behind_always", None, 120 if big else 40))
     for gname, feats, n in groups:
         cases = []
-        for am, eng, runs, _ in common.random_family(rng, n, features=feats, runs=1, engines=("sync",)):
-            cx, events = runs[0]
-            cases.append((am, cx, events))
+        if feats is None:
+            cases = raise_behind_always(rng, n)
+        else:
+            for am, eng, runs, _ in common.random_family(rng, n, features=feats, runs=1, engines=("sync",)):
+                cx, events = runs[0]
+                cases.append((am, cx, events))
         with ProcessPoolExecutor(max_workers=14) as ex:
             results = list(ex.map(three_way, cases, chunksize=4))
         for (am, cx, events), r in zip(cases, results):
